@@ -238,7 +238,16 @@ def run(ctx):
     for n, f in sorted(prog.fns.items()):
         if f.bkind != "fn" or not (n.startswith("lace::lexer::") or n.startswith("lace::parser::")) or "Result<" not in str(f.d.get("output", "")):
             continue
-        errb = kit.error_blocks(f)
+        # where an error value is made: `?` (also the one of a helper written into this function, which first fills the helper's own
+        # result) and `Err(..)`
+        errb = set(kit.error_blocks(f))
+        for b_ in f.live_blocks():
+            t_ = f.term(b_)
+            if t_["k"] == "call" and kit.is_from_residual(callee_of(t_)):
+                errb.add(b_)
+            for s_ in f.stmts(b_):
+                if s_["k"] == "assign" and s_["r"]["k"] == "agg" and s_["r"].get("adt") == "core::result::Result" and s_["r"].get("variant") == "Err":
+                    errb.add(b_)
         rets = {b for b in f.live_blocks() if f.term(b)["k"] == "return"}
         for b, t, c in f.calls():
             g = prog.fns.get(c or "")
